@@ -10,7 +10,7 @@ using hx::ShadowHeap;
 
 namespace {
 
-struct Region { char* p; size_t n; int pool; bool freed; };
+struct Region { char* p; size_t n; int pool; bool freed; char* base = nullptr; };
 struct PoolCtx {
     int id; rml::MemoryPool* pool = nullptr; bool fixed = false; int raw_allocs = 0; int fail_at = 0; int fail_until = 0; bool destroyed = false;
     bool keep_all = false;      // MemPoolPolicy::keepAllMemory
@@ -20,6 +20,7 @@ struct PoolCtx {
 std::vector<Region>* g_regions = nullptr;
 std::vector<PoolCtx>* g_pools = nullptr;
 char* g_fixed_buf = nullptr; size_t g_fixed_size = 0;
+size_t g_raw_off = 0;     // knob: where inside its own allocation the harness places a raw region (alignment of the region base)
 
 void* raw_alloc(intptr_t pool_id, size_t& bytes) {
     PoolCtx& pc = (*g_pools)[(size_t)pool_id];
@@ -37,9 +38,10 @@ void* raw_alloc(intptr_t pool_id, size_t& bytes) {
         sim::upoint();
         return nullptr;
     }
-    char* p = (char*)malloc(bytes);
+    char* base = (char*)malloc(bytes + g_raw_off);
+    char* p = base + g_raw_off;
     sim::note("pool%d raw_alloc %p..%p (%zu)", pc.id, (void*)p, (void*)(p + bytes), bytes);
-    g_regions->push_back({p, bytes, pc.id, false});
+    g_regions->push_back({p, bytes, pc.id, false, base});
     return p;
 }
 int raw_free(intptr_t pool_id, void* ptr, size_t bytes) {
@@ -52,7 +54,7 @@ int raw_free(intptr_t pool_id, void* ptr, size_t bytes) {
             for (void* b : pc.blocks) SIM_CHECK(!((char*)b >= r.p && (char*)b < r.p + r.n), "oracle:pool-raw-free", "pool %d returned region %p while block %p inside it is still in use", pc.id, ptr, b);
             r.freed = true;
             sim::note("pool%d raw_free %p (%zu)", pc.id, ptr, bytes);
-            if (!pc.fixed) free(ptr);
+            if (!pc.fixed) free(r.base);
             return 0;
         }
     }
@@ -81,6 +83,8 @@ SIM_SCENARIO(scen_c18, "c18", "C18", 3000000, 20000) {
         sim::g_cfg.oom_until = oom_mode == 1 ? sim::g_cfg.oom_at : sim::g_cfg.oom_at + (uint64_t)sim::draw_range(1, oom_mode == 2 ? 3 : 40, "oom_len");
     }
     int npools = (int)sim::draw(3, "npools");
+    static const size_t offs[] = {0, 16, 48, 4096 - 16, 4096, 16384 - 64};
+    g_raw_off = sim::draw_of(offs, "raw_region_offset");
     g_fixed_size = (size_t)1 << sim::draw_range(16, 21, "fixed_log2");
     g_fixed_buf = (char*)malloc(g_fixed_size);
     pools.resize((size_t)npools);
@@ -93,7 +97,7 @@ SIM_SCENARIO(scen_c18, "c18", "C18", 3000000, 20000) {
             pools[i].fail_until = len == 3 ? 1 << 30 : pools[i].fail_at + len;
         }
     }
-    d.add(hx::fmt("tbbmalloc-oom threads=%d oom_at=%llu..%llu pools=%d", nthreads, (unsigned long long)sim::g_cfg.oom_at, (unsigned long long)sim::g_cfg.oom_until, npools));
+    d.add(hx::fmt("tbbmalloc-oom threads=%d oom_at=%llu..%llu pools=%d raw-region-offset=%zu", nthreads, (unsigned long long)sim::g_cfg.oom_at, (unsigned long long)sim::g_cfg.oom_until, npools, g_raw_off));
     for (auto& pc : pools) d.add(hx::fmt("pool%d: fixed=%d keepAll=%d raw-fail=%d..%d", pc.id, (int)pc.fixed, (int)pc.keep_all, pc.fail_at, pc.fail_until));
     std::vector<std::vector<Plan>> plan(nthreads);
     for (int t = 0; t < nthreads; ++t) {
